@@ -83,6 +83,20 @@ pub fn bursts() -> Vec<Burst> {
     v.push(mk("sequence-numbers-3", base_cfg(), 3, users3(), vec![], chan3.clone(), vec![(0, vec!["PRIVMSG #c :a.1", "PRIVMSG #c :a.2"]), (1, vec!["PRIVMSG #c :b.1", "PING b.2"]), (2, vec!["PING c.1", "TOPIC #c :c.2"])]));
     // last member leaves while another joins: channel destroyed or kept, never both
     v.push(mk("part-vs-join", base_cfg(), 3, users3(), vec![], vec![(0, "JOIN #c")], vec![(0, vec!["PART #c"]), (1, vec!["JOIN #c"])]));
+    // a session ends (its teardown waits for the state lock, which OPER holds across the
+    // password check) while a channel message is fanned out to the channel it is leaving:
+    // every member that stays must get the message
+    let users5 = || vec![(0usize, s("alice"), s("au")), (1, s("bob"), s("bu")), (2, s("carol"), s("cu")), (3, s("dave"), s("du")), (4, s("quin"), s("qu"))];
+    v.push(mk(
+        "oper-vs-quit-vs-privmsg",
+        base_cfg(),
+        5,
+        users5(),
+        vec![],
+        vec![(0, "JOIN #c"), (1, "JOIN #c"), (2, "JOIN #c"), (3, "JOIN #c"), (4, "JOIN #c")],
+        vec![(0, vec!["OPER op oppw"]), (4, vec!["QUIT"]), (1, vec!["PRIVMSG #c :m1"])],
+    ));
+    v.push(mk("oper-vs-eof-vs-topic", base_cfg(), 5, users5(), vec![], vec![(0, "JOIN #c"), (1, "JOIN #c"), (2, "JOIN #c"), (3, "JOIN #c"), (4, "JOIN #c")], vec![(0, vec!["OPER op oppw"]), (4, vec!["QUIT :bye"]), (1, vec!["TOPIC #c :t1"])]));
     v.push(mk("quit-vs-invite", base_cfg(), 3, users3(), vec![], vec![(0, "JOIN #c"), (1, "JOIN #c")], vec![(0, vec!["INVITE carol #c"]), (2, vec!["QUIT"])]));
     v
 }
